@@ -8,7 +8,7 @@ export GOFLAGS=-mod=mod GOPROXY=off
 run() {
   if [ "$KIND" = standalone ]; then
     rm -rf /tmp/demo-$NAME; cp -r $OUT/demo /tmp/demo-$NAME
-    grep -rlE "/tmp/mut-[A-Za-z0-9]+" /tmp/demo-$NAME | xargs -r sed -i -E "s#/tmp/mut-[A-Za-z0-9]+-out/demo#/tmp/demo-$NAME#g; s#/tmp/mut-[A-Za-z0-9]+#$WT#g"
+    grep -rlE "/tmp/mut2?-[A-Za-z0-9]+" /tmp/demo-$NAME | xargs -r sed -i -E "s#/tmp/mut2?-[A-Za-z0-9]+-out/demo#/tmp/demo-$NAME#g; s#/tmp/mut2?-[A-Za-z0-9]+#$WT#g"
     cp $WT/go.sum /tmp/demo-$NAME/go.sum
     (cd /tmp/demo-$NAME && timeout 1500 go run . 2>&1 | tail -3; echo "exit=$?")
   else
